@@ -15,7 +15,9 @@
      P_C05_ListPeers           at quiescence ListPeers(t) (and the belief p.topics[t]) = connected interested peers
      P_C05_GetTopics           GetTopics = topics with a live subscription (every line)
      P_C05_CancelledNext       Next results of the buffered subscription
-     P_C05_RelayFanoutOnly     Topic.Relay on a fanout-only topic refuses                                        *)
+     P_C05_RelayFanoutOnly     Topic.Relay on a fanout-only topic refuses
+   The interest truth is (number of LIVE Subscription handles + not yet cancelled relay references) > 0: a second Cancel of an
+   already cancelled handle, a RelayCancelFunc called twice and a refused Topic.Close change nothing and may announce nothing. *)
 EXTENDS Naturals, Sequences, FiniteSets, TLC, Json
 
 Trace == ndJsonDeserialize("trace.ndjson")
@@ -30,7 +32,7 @@ RetryWindow == 1001   \* announceRetry sleeps 1..1000 ms
 EmptyM == [topics |-> {}, peers |-> {}, wsubs |-> <<>>, relays |-> <<>>, kind |-> <<>>,
            conn |-> <<>>, gated |-> <<>>, held |-> <<>>, rup |-> <<>>, their |-> <<>>,
            up |-> <<>>, wf |-> <<>>, pend |-> <<>>, lost |-> <<>>,
-           bst |-> "none", btopic |-> "", bcap |-> 0, bbuf |-> <<>>, scn |-> 0, seen |-> {}, broken |-> FALSE, stale |-> {}, lostUnsub |-> {}]
+           bst |-> "none", btopic |-> "", bcap |-> 0, bbuf |-> <<>>, scn |-> 0, seen |-> {}, broken |-> FALSE, stale |-> {}, lostUnsub |-> {}, ctried |-> {}]
 
 ResetM(e) ==
     LET T == ToSet(e.cfg.topics)  P == ToSet(e.cfg.peers) IN
@@ -40,7 +42,7 @@ ResetM(e) ==
      rup |-> [p \in P |-> FALSE], their |-> [p \in P |-> {}],
      up |-> [p \in P |-> FALSE], wf |-> [p \in P |-> {}],      \* wf[p] = topics p believes the node is interested in
      pend |-> <<>>, lost |-> [p \in P |-> {}],
-     bst |-> "none", btopic |-> "", bcap |-> 0, bbuf |-> <<>>, scn |-> e.scn, seen |-> {}, broken |-> FALSE, stale |-> {}, lostUnsub |-> {}]
+     bst |-> "none", btopic |-> "", bcap |-> 0, bbuf |-> <<>>, scn |-> e.scn, seen |-> {}, broken |-> FALSE, stale |-> {}, lostUnsub |-> {}, ctried |-> {}]
 
 \* ------------------------------------------------------------------ true interest of the node
 Subs(x, t) == x.wsubs[t] + (IF x.bst = "live" /\ x.btopic = t THEN 1 ELSE 0)
@@ -60,7 +62,11 @@ Act(x, a) ==
       [] a.a = "unrelay"   -> IF x.relays[a.t] > 0 THEN [x EXCEPT !.relays[a.t] = @ - 1] ELSE x
       [] a.a = "join"      -> IF x.kind[a.t] = "none" THEN [x EXCEPT !.kind[a.t] = IF a.fan THEN "fanout" ELSE "normal"] ELSE x
       [] a.a = "closeTopic" -> IF x.kind[a.t] # "none" /\ Subs(x, a.t) = 0 /\ x.relays[a.t] = 0
-                                 THEN [x EXCEPT !.kind[a.t] = "none"] ELSE x
+                                 THEN [x EXCEPT !.kind[a.t] = "none"]
+                                 ELSE IF x.kind[a.t] # "none" THEN [x EXCEPT !.ctried = @ \cup {a.t}] ELSE x   \* refused: nothing changes
+      \* Cancel called again on an already cancelled Subscription / a RelayCancelFunc called twice: the truth
+      \* (number of LIVE handles + live relay references) does not change, so nothing may be announced
+      [] a.a \in {"cancelAgain", "unrelayAgain"} -> x
       [] a.a = "bsub"      -> [Joined(x, a.t) EXCEPT !.bst = "live", !.btopic = a.t, !.bcap = a.size, !.bbuf = <<>>]
       [] a.a = "bcancel"   -> IF x.bst = "live" THEN [x EXCEPT !.bst = "cancelled"] ELSE x
       [] a.a = "peer"      -> [x EXCEPT !.conn[a.p] = TRUE, !.rup[a.p] = TRUE, !.their[a.p] = ToSet(a.subs),
@@ -76,7 +82,7 @@ Act(x, a) ==
       [] a.a \in {"resetOut", "closeOut"} -> [x EXCEPT !.rup[a.p] = FALSE, !.lost[a.p] = {}]
       [] OTHER -> x
 
-IsApi(a) == a.a \in {"subscribe", "cancel", "relay", "unrelay", "join", "closeTopic", "bsub", "bcancel"}
+IsApi(a) == a.a \in {"subscribe", "cancel", "cancelAgain", "relay", "unrelay", "unrelayAgain", "join", "closeTopic", "bsub", "bcancel"}
 ApiTopic(x, a) == IF a.a = "bcancel" THEN x.btopic ELSE a.t
 
 \* ------------------------------------------------------------------ announcements at enqueue time
@@ -182,6 +188,8 @@ Step(x, e) ==
                 THEN {[pred |-> "P_C05_CancelledNext", at |-> base, got |-> e.res, want |-> NextExp(x1.bbuf, x1.bst, Len(e.res)), state |-> x1.bst]} ELSE {})
         \cup (IF a.a = "cancel" /\ x0.wsubs[a.t] > 0 /\ e.rdone # "cancelled"     \* a reader blocked in Next when Cancel arrives
                 THEN {[pred |-> "P_C05_CancelledNext", at |-> base, got |-> <<e.rdone>>, want |-> <<"cancelled">>, state |-> "reader"]} ELSE {})
+        \cup (IF a.a = "cancelAgain" /\ \E j \in DOMAIN e.live : e.live[j] # "blocked"      \* a LIVE sibling must keep being served
+                THEN {[pred |-> "P_C05_CancelledNext", at |-> base, got |-> e.live, want |-> <<"blocked">>, state |-> "live-sibling"]} ELSE {})
         \cup (IF quiet THEN
                 {[pred |-> "P_C05_WireTruth", at |-> base, p |-> p, up |-> x2.up[p], wire |-> x2.wf[p], want |-> nowI,
                   fanoutRetry |-> (x2.up[p] /\ nowI \subseteq x2.wf[p] /\ \A t \in x2.wf[p] \ nowI : <<p, t>> \in (x2.stale \cup x2.lostUnsub) /\ FanSub(x2, t))]
@@ -204,6 +212,14 @@ Step(x, e) ==
                \cup (IF a.a = "subscribe" /\ x1.kind[a.t] = "fanout" THEN {"fanoutSubscribe"} ELSE {})
                \cup (IF a.a = "next" /\ x1.bst = "cancelled" THEN {"nextAfterCancel"} ELSE {})
                \cup (IF a.a = "cancel" /\ x0.wsubs[a.t] > 0 THEN {"readerCancelled"} ELSE {})
+               \cup (IF a.a = "cancel" /\ a.old /\ x0.wsubs[a.t] > 1 THEN {"cancelOldestFirst"} ELSE {})
+               \cup (IF a.a = "cancel" /\ a.t \in x0.ctried /\ x0.wsubs[a.t] > 0 THEN {"cancelAfterCloseRefused"} ELSE {})
+               \cup (IF a.a = "closeTopic" /\ x0.kind[a.t] # "none" /\ (Subs(x0, a.t) > 0 \/ x0.relays[a.t] > 0) THEN {"closeRefused"} ELSE {})
+               \cup (IF a.a = "cancelAgain" THEN {"cancelAgain"} \cup
+                        (IF Subs(x0, a.t) = 1 /\ x0.relays[a.t] = 0 /\ x0.kind[a.t] = "normal" THEN {"cancelAgain:oneLiveSiblingNoRelay"} ELSE {}) \cup
+                        (IF Subs(x0, a.t) = 0 THEN {"cancelAgain:noneLive"} ELSE {}) ELSE {})
+               \cup (IF a.a = "unrelayAgain" THEN {"unrelayAgain"} \cup
+                        (IF x0.relays[a.t] = 1 /\ Subs(x0, a.t) = 0 THEN {"unrelayAgain:oneLiveRefNoSub"} ELSE {}) ELSE {})
                \cup (IF a.a \in {"resetIn", "resetOut", "closeOut", "down"} THEN {"fault:" \o a.a} ELSE {})
                \cup (IF a.a = "peer" /\ x0.conn[a.p] /\ x0.rup[a.p] /\ ToSet(a.subs) # x0.their[a.p] /\ x0.their[a.p] # {} /\ a.subs # <<>>
                      THEN {IF ToSet(a.subs) \subseteq x0.their[a.p] THEN "dupInbound:subset"
